@@ -46,7 +46,7 @@ func (e *xmlEncoder) Encode(writer io.Writer, node *CandidateNode) error {
 	encoder.Indent("", e.indentString)
 	var newLine xml.CharData = []byte("\n")
 
-	if node.Tag == "!!map" {
+	if node.Kind == MappingNode {
 		// make sure <?xml .. ?> processing instructions are encoded first
 		for i := 0; i < len(node.Content); i += 2 {
 			key := node.Content[i]
